@@ -267,6 +267,29 @@ def check(repo, res, tier):
     ok = bool(inits) and all(isinstance(d.value, ast.Call) and (dotted(d.value.func) in ("copy.deepcopy", "np.copy", "np.array", "copy.copy") or norm(d.value.func).endswith(".copy")) for d in inits)
     res.check(ok, "R-PURE", jf, "copy-initial-state", "each run starts from a copy of self._x0", "a run works on self._x0 itself: %s" % [norm(d.stmt) for d in inits],
               node=inits[0].stmt if inits else None)
+    # nothing written by a run may be read by the next run before being re-initialised (hidden state between runs)
+    for fn_ in (jf, repo.resolve_method(cls, "solve_stochast")):
+        fcfg, fdf = cfg_of(fn_), dataflow_of(fn_)
+        written = {}
+        for n in fcfg.stmt_nodes():
+            st = n.ast
+            if n.kind == "stmt" and isinstance(st, (ast.Assign, ast.AugAssign)):
+                for t in (st.targets if isinstance(st, ast.Assign) else [st.target]):
+                    if is_self_attr(t) and repo.resolve_setter(cls, t.attr) is None:
+                        written.setdefault(t.attr, []).append(n)
+        for attr, wnodes in sorted(written.items()):
+            plain = [w for w in wnodes if isinstance(w.ast, ast.Assign)]
+            carried = []
+            for n in fcfg.stmt_nodes():
+                reads = [x for e in fdf.node_exprs(n) for x in walk_no_nested(e) if is_self_attr(x, attr) and isinstance(x.ctx, ast.Load)]
+                if isinstance(n.ast, ast.AugAssign) and is_self_attr(n.ast.target, attr):
+                    reads.append(n.ast.target)
+                if reads and not any(fcfg.dominates(w, n) and w.id != n.id for w in plain):
+                    carried.append(n)
+            res.check(not carried, "R-PURE", fn_, "no-carried-state(%s)" % attr, "self.%s is (re)initialised in every run before it is read" % attr,
+                      "%s reads self.%s (e.g. `%s`) before assigning it in the same call although it also writes it: what one run leaves behind "
+                      "changes the next run, so repeating a seeded call does not reproduce it" % (fn_.name, attr, norm(carried[0].ast)[:60] if carried else ""),
+                      node=carried[0].ast if carried else None)
     writes = [n for n in walk_no_nested(jf.node) if isinstance(n, (ast.Assign, ast.AugAssign)) and any(
         is_self_attr(t, a) for t in (n.targets if isinstance(n, ast.Assign) else [n.target]) for a in ("_x0", "_t0"))]
     res.check(not writes, "R-PURE", jf, "initial-values-untouched", "_jump never rebinds the initial state/time", "_jump rebinds the initial values: %s" % [norm(w) for w in writes])
